@@ -11,6 +11,7 @@ import SkVerif.Lemmas.C14Seg
 import SkVerif.Lemmas.C14Slide
 import SkVerif.Lemmas.C14InterpPanel
 import SkVerif.Lemmas.C14Impute3
+import SkVerif.Lemmas.C14Impute4
 import SkVerif.Lemmas.C14Feat
 namespace SkVerif.C14
 open SkVerif SkVerif.C14
@@ -350,14 +351,19 @@ theorem ffill_eq_spec (z : OSeries) (i : Nat) (hi : i < z.length) :
 theorem bfill_eq_spec (z : OSeries) (i : Nat) (hi : i < z.length) :
     (bfill z)[i]? = some (Spec.firstValidFrom z i) := Lem.bfill_getElem? z i hi
 
-/-- method "ffill"/"pad": forward fill, then whatever is still missing at the start is back-filled;
-    method "bfill"/"backfill": backward fill, then the end is forward-filled -/
-theorem impute_ffill_bfill_eq_spec (z : OSeries) (hz : z ≠ []) :
-    impute .ffill none none z = .ok (bfill (ffill (ffill z))) ∧
+/-- method "ffill"/"pad", position by position: the latest observation at or before `i`; positions before
+the first observation take the earliest observation after them (the closing back-fill) -/
+theorem impute_ffill_eq_spec (z : OSeries) (hz : z ≠ []) (i : Nat) (hi : i < z.length) :
+    ∃ r, impute .ffill none none z = .ok r ∧
+      r[i]? = some ((Spec.lastValidUpTo z i).or (Spec.firstValidFrom z i)) :=
+  ⟨_, Lem.impute_ffill z hz, Lem.bfill_ffill_getElem? z i hi⟩
+
+/-- method "bfill"/"backfill": backward fill (`bfill_eq_spec`), then the closing forward/backward fill
+for what is still missing at the end -/
+theorem impute_bfill_eq_spec (z : OSeries) (hz : z ≠ []) :
     impute .bfill none none z = .ok (bfill (ffill (bfill z))) := by
   have he := Lem.isEmpty_false_of_ne hz
-  constructor <;>
-    simp [impute, stage1, stage1Err, checkMethod, he, replaceMissing, bind, Except.bind, pure, Except.pure]
+  simp [impute, stage1, stage1Err, checkMethod, he, replaceMissing, bind, Except.bind, pure, Except.pure]
 
 /-- method "constant": observed values stay, every missing one becomes `value` -/
 theorem impute_constant_eq_spec (v : Rat) (z : OSeries) (hz : z ≠ []) :
@@ -410,7 +416,10 @@ FULL-STRENGTH STATEMENT for method "drift" (does NOT hold, KNOWN FINDING impute:
 What the code does is proved here: "drift" is forward/backward filling.
 -/
 theorem impute_drift_eq_ffill_bfill_partial (z : OSeries) (p : Nat) (v : Rat) (hp : z[p]? = some (some v)) :
-    impute .drift none none z = .ok (bfill (ffill z)) := Lem.impute_drift z p v hp
+    impute .drift none none z = .ok (bfill (ffill z)) ∧
+    ∀ i, i < z.length →
+      (bfill (ffill z))[i]? = some ((Spec.lastValidUpTo z i).or (Spec.firstValidFrom z i)) :=
+  ⟨Lem.impute_drift z p v hp, fun i hi => Lem.bfill_ffill_getElem? z i hi⟩
 
 theorem impute_drift_no_trend_witness :
     impute .drift none none [none, some 5, some (-1)] = .ok [some 5, some 5, some (-1)] ∧
